@@ -48,7 +48,11 @@ type ctx struct {
 }
 
 func newCtx(p, a, b int) *ctx {
-	return &ctx{p: p, a: a, b: b, A: world.Fork(p, a, ""), B: world.Fork(p, b, "fork-B"), warm: map[string]map[string][]byte{}}
+	x := &ctx{p: p, a: a, b: b, A: world.Fork(p, a, ""), B: world.Fork(p, b, "fork-B"), warm: map[string]map[string][]byte{}}
+	// the heads of log B carry a signed extension line with characters that matter to formatting code:
+	// whatever reports a head must pass it on verbatim
+	x.B.DefaultExtra = "operator note: 100% %s %d %!v {} \\ \u00e9\n"
+	return x
 }
 
 func latestFile() string { return world.TheKeys().Name + "/latest" }
